@@ -1,4 +1,5 @@
 """C07: quick recurrence check: every verdict is true."""
+import re
 import random
 from . import core
 from .common import diff_streams, parse_kv
@@ -70,11 +71,14 @@ def check(rep, tier, seed, replay):
     rep.cov["wrapper_cases"] = len(wl)
     kinds = {}
     # --- oracle
-    steps_q = [l.replace("rec ", "rec_steps ", 1) for l, o in zip(lines, impl) if o == "recur"]
+    steps_q = [l.replace("rec ", "rec_steps ", 1) for l, o in zip(lines, impl)
+               if o == "recur" or o == "spinout" or o.startswith("undefined")]
     steps_o = dict(zip(steps_q, core.run_driver(steps_q)))
     or_lines, or_meta = [], []
     CERT_MAX = 6000
+    TERM_MAX = 200_000_000
     unjudged = 0
+    term_unjudged = 0
     for line, out in zip(lines, impl):
         kind = out.split("(")[0]
         kinds[kind] = kinds.get(kind, 0) + 1
@@ -91,8 +95,31 @@ def check(rep, tier, seed, replay):
                 or_lines.append(f"l0linrec {st + 2} | {prog}")
                 or_meta.append((line, out, "cert"))
         elif out == "spinout" or out.startswith("undefined"):
-            or_lines.append(f"l0run 2000000 | {prog}")
-            or_meta.append((line, out, "term"))
+            # A termination claim carries no step number, so a cell-by-cell run that has not
+            # terminated within SOME budget refutes nothing by itself (lim run-length cycles can
+            # cover far more base steps: `1RB 1LC ...  1LA 1LC 2RB  1RB 2LC 1RC` halts at step
+            # 3 932 963 within 20 000 cycles).  The budget is therefore the step count of the model's
+            # own run when the model gives the same verdict (then the L0 run must show exactly that
+            # event); when the model gives ANOTHER definite verdict, that verdict is true of the
+            # machine by theorem (rec_undefined / rec_spinout / rec_recur), the claim is false and the
+            # L0 run is the illustration; when the model says `limit`, an unconfirmed claim stays
+            # unjudged (the correspondence mismatch is reported on its own).
+            so = steps_o[line.replace("rec ", "rec_steps ", 1)]
+            mv = so.split(" ")[0]
+            m_st = re.search(r"steps=(\d+)", so)
+            st = int(m_st.group(1)) if m_st else 0
+            if mv == out:
+                if st > TERM_MAX:
+                    term_unjudged += 1
+                    continue
+                or_lines.append(f"l0run {st + 10} | {prog}")
+                or_meta.append((line, out, "term"))
+            elif mv == "recur" or mv == "spinout" or mv.startswith("undefined"):
+                or_lines.append(f"l0run 2000000 | {prog}")
+                or_meta.append((line, out, "term"))
+            else:
+                or_lines.append(f"l0run 2000000 | {prog}")
+                or_meta.append((line, out, "term_soft"))
     orc = core.run_driver(or_lines)
     confirmed = 0
     distinct = set()
@@ -112,6 +139,9 @@ def check(rep, tier, seed, replay):
                 rep.violation("oracle", {"case": line, "impl": out, "l0": o, "why": "recurrence claimed but the machine terminates"})
         else:
             f = parse_kv("x " + o)
+            if how == "term_soft" and f["spin"] == "none" and f["halt"] == "none":
+                term_unjudged += 1  # neither confirmed nor refutable by a finite run
+                continue
             if out == "spinout":
                 if f["spin"] == "none":
                     rep.violation("oracle", {"case": line, "impl": out, "l0": o})
@@ -145,6 +175,7 @@ def check(rep, tier, seed, replay):
     rep.cov["verdict_kinds"] = kinds
     rep.cov["recurrences_confirmed_by_certificate"] = confirmed
     rep.cov["recurrences_too_long_for_certificate_search"] = unjudged
+    rep.cov["termination_claims_unjudged"] = term_unjudged
     rep.cov["correspondence_mismatches"] = len(mism)
     import os
     if os.path.exists(os.path.join(core.LEAN, "BB", "Props", "C07.lean")):
